@@ -1,4 +1,5 @@
 import VOPyVerif.Proofs.CoveredComplete
+import VOPyVerif.Proofs.InvCovered
 /-!
 # C10 — "is covered" decides `∃ z ∈ R₁, ∃ z' ∈ R₂ : z' dominates z by the slack`
 
@@ -658,5 +659,239 @@ example : rectIsCovered [[1, 0], [0, 1]] [0, 0] [1, 1] [0, 0] [1, 1] [0] = some 
 nearest point of `{x ≥ 1, y ≥ 1, x + y ≥ 2}` to the origin is `(1,1)` -/
 example : (nearest 2 [⟨[1, 0], 1⟩, ⟨[0, 1], 1⟩, ⟨[1, 1], 2⟩] [0, 0]).map (·.1) = some [1, 1] := by
   decide +kernel
+
+/-! ## INVARIANCES — translation, positive scaling, cone-row scaling and permutation
+
+For the decisions the driver ops `rect` / `ball` evaluate (`rectVerdict`, `rectIsCovered(Tol)`,
+`ballVerdict`, `ballIsCovered(Tol)`), for the certificate-checked verdict of general ellipsoids
+(`ellVerdict`) and for the semantic predicate `Cov` over ellipsoids (helpers: `Proofs/InvCovered.lean`).
+Hypotheses are the well-formedness conditions of `rect_verdict_iff` / `ball_verdict_iff` only (one
+dimension, cone rows of that dimension); nothing about `l ≤ u` or the sign of the radii.  These are
+the statements the metamorphic checks of the harness rely on (translated / rescaled / large-offset
+cases, non-unit and re-ordered cone rows give the same verdict). -/
+
+section Invariance
+
+/-- **Rectangles: common translation.**  The certified verdict (any objective-space slack `s`, any
+per-facet margins `t`) does not change when both boxes are translated by one vector `τ`; hence
+neither do `is_covered` (`rectIsCovered`) and its band versions, whatever the slack argument. -/
+theorem rect_isCovered_translate (W : Mat) (l1 u1 l2 u2 τ : Vec)
+    (h1 : u1.length = l1.length) (h2 : l2.length = l1.length) (h3 : u2.length = l1.length)
+    (hm : ncols W = l1.length) (hW : ∀ w ∈ W, w.length = l1.length) (hτ : τ.length = l1.length) :
+    (∀ s t : Vec, s.length = l1.length → W.length = t.length →
+      rectVerdict W (vadd l1 τ) (vadd u1 τ) (vadd l2 τ) (vadd u2 τ) s t = rectVerdict W l1 u1 l2 u2 s t) ∧
+    (∀ (slack : Vec) (tau : ℚ),
+      rectIsCoveredTol W (vadd l1 τ) (vadd u1 τ) (vadd l2 τ) (vadd u2 τ) slack tau =
+        rectIsCoveredTol W l1 u1 l2 u2 slack tau) ∧
+    (∀ slack : Vec,
+      rectIsCovered W (vadd l1 τ) (vadd u1 τ) (vadd l2 τ) (vadd u2 τ) slack =
+        rectIsCovered W l1 u1 l2 u2 slack) := by
+  have base := fun s t hs ht => rectVerdict_translate W l1 u1 l2 u2 s t τ h1 h2 h3 hs ht hW hτ
+  refine ⟨base, ?_, ?_⟩
+  · intro slack tau
+    unfold rectIsCoveredTol
+    cases hs : expandSlack (ncols W) slack with
+    | none => rfl
+    | some sv =>
+      simp only [Option.map_some, Option.some.injEq]
+      exact base sv _ ((expandSlack_length hs).trans hm) (by simp)
+  · intro slack
+    unfold rectIsCovered
+    cases hs : expandSlack (ncols W) slack with
+    | none => rfl
+    | some sv =>
+      simp only [Option.map_some, Option.some.injEq]
+      exact base sv _ ((expandSlack_length hs).trans hm) (by simp [zeros])
+
+/-- **Rectangles: positive scaling.**  Scaling both boxes, the slack and the margins by `k > 0` leaves
+the verdict unchanged (`is_covered` with the slack scaled; band margin `τ ↦ k·τ`). -/
+theorem rect_isCovered_scale (W : Mat) (k : ℚ) (hk : 0 < k) (l1 u1 l2 u2 : Vec)
+    (h1 : u1.length = l1.length) (h2 : l2.length = l1.length) (h3 : u2.length = l1.length)
+    (hm : ncols W = l1.length) (hW : ∀ w ∈ W, w.length = l1.length) :
+    (∀ s t : Vec, s.length = l1.length → W.length = t.length →
+      rectVerdict W (smul k l1) (smul k u1) (smul k l2) (smul k u2) (smul k s) (smul k t) =
+        rectVerdict W l1 u1 l2 u2 s t) ∧
+    (∀ (slack : Vec) (tau : ℚ),
+      rectIsCoveredTol W (smul k l1) (smul k u1) (smul k l2) (smul k u2) (smul k slack) (k * tau) =
+        rectIsCoveredTol W l1 u1 l2 u2 slack tau) ∧
+    (∀ slack : Vec,
+      rectIsCovered W (smul k l1) (smul k u1) (smul k l2) (smul k u2) (smul k slack) =
+        rectIsCovered W l1 u1 l2 u2 slack) := by
+  have base := fun s t hs ht => rectVerdict_scale W k hk l1 u1 l2 u2 s t h1 h2 h3 hs ht hW
+  refine ⟨base, ?_, ?_⟩
+  · intro slack tau
+    unfold rectIsCoveredTol
+    rw [expandSlack_smul]
+    cases hs : expandSlack (ncols W) slack with
+    | none => rfl
+    | some sv =>
+      simp only [Option.map_some, Option.some.injEq]
+      have := base sv (List.replicate W.length tau) ((expandSlack_length hs).trans hm) (by simp)
+      rwa [Inv.smul_replicate] at this
+  · intro slack
+    unfold rectIsCovered
+    rw [expandSlack_smul]
+    cases hs : expandSlack (ncols W) slack with
+    | none => rfl
+    | some sv =>
+      simp only [Option.map_some, Option.some.injEq]
+      have := base sv (zeros W.length) ((expandSlack_length hs).trans hm) (by simp [zeros])
+      rwa [Covered.smul_zeros k] at this
+
+/-- **Rectangles: cone rows may be rescaled and re-ordered.**  Multiplying row `n` of `W` and margin
+`t n` by the same `D n > 0` leaves the verdict unchanged; `is_covered` itself (margins 0,
+objective-space slack) is therefore unchanged by a positive row scaling *with the same slack*, and
+`is_covered` and all its band versions are unchanged by a permutation of the rows. -/
+theorem rect_isCovered_rows (W : Mat) (l1 u1 l2 u2 : Vec)
+    (h1 : u1.length = l1.length) (h2 : l2.length = l1.length) (h3 : u2.length = l1.length)
+    (hm : ncols W = l1.length) (hW : ∀ w ∈ W, w.length = l1.length) :
+    (∀ (D s t : Vec), (∀ e ∈ D, 0 < e) → D.length = W.length → s.length = l1.length →
+      W.length = t.length →
+      rectVerdict (List.zipWith smul D W) l1 u1 l2 u2 s (List.zipWith (· * ·) D t) =
+        rectVerdict W l1 u1 l2 u2 s t) ∧
+    (∀ (D slack : Vec), (∀ e ∈ D, 0 < e) → D.length = W.length →
+      rectIsCovered (List.zipWith smul D W) l1 u1 l2 u2 slack = rectIsCovered W l1 u1 l2 u2 slack) ∧
+    (∀ (W' : Mat) (slack : Vec) (tau : ℚ), W.Perm W' →
+      rectIsCoveredTol W' l1 u1 l2 u2 slack tau = rectIsCoveredTol W l1 u1 l2 u2 slack tau) := by
+  have base := fun (D s t : Vec) hD hlen hs ht =>
+    rectVerdict_scaleRows D W l1 u1 l2 u2 s t hD hlen h1 h2 h3 hs ht hW
+  refine ⟨base, ?_, ?_⟩
+  · intro D slack hD hlen
+    unfold rectIsCovered
+    rw [ncols_scaleRows D W hlen]
+    cases hs : expandSlack (ncols W) slack with
+    | none => rfl
+    | some sv =>
+      simp only [Option.map_some, Option.some.injEq]
+      have := base D sv (zeros W.length) hD hlen ((expandSlack_length hs).trans hm) (by simp [zeros])
+      rw [zipWith_mul_zeros D W.length hlen] at this
+      simpa [hlen] using this
+  · intro W' slack tau hp
+    have hnc : ncols W' = ncols W := by
+      cases W with
+      | nil => rw [List.nil_perm.mp hp]
+      | cons w W0 =>
+        cases W' with
+        | nil => exact absurd hp.symm (by simp)
+        | cons w' W0' =>
+          simp only [ncols]
+          rw [hW w (by simp), hW w' (hp.mem_iff.mpr (by simp))]
+    unfold rectIsCoveredTol
+    rw [hnc, ← hp.length_eq]
+    cases hs : expandSlack (ncols W) slack with
+    | none => rfl
+    | some sv =>
+      simp only [Option.map_some, Option.some.injEq]
+      have hz : ∀ V : Mat, (V.zip (List.replicate V.length tau)).map Prod.fst = V ∧
+          (V.zip (List.replicate V.length tau)).map Prod.snd = List.replicate V.length tau :=
+        fun V => ⟨map_fst_zip V _ (by simp), map_snd_zip V _ (by simp)⟩
+      have hperm : (W.zip (List.replicate W.length tau)).Perm (W'.zip (List.replicate W.length tau)) := by
+        have : ∀ V : Mat, V.zip (List.replicate V.length tau) = V.map (fun w => (w, tau)) := by
+          intro V; induction V with
+          | nil => rfl
+          | cons v V ih => simp [List.replicate_succ, ih]
+        rw [this W, hp.length_eq, this W']
+        exact hp.map _
+      have := rectVerdict_perm hperm l1 u1 l2 u2 sv h1 h2 h3 ((expandSlack_length hs).trans hm)
+        (by
+          intro p hp'
+          exact hW p.1 (by have := (List.of_mem_zip hp').1; exact this))
+      rw [(hz W).1, (hz W).2] at this
+      rw [hp.length_eq, (hz W').1, (hz W').2, ← hp.length_eq] at this
+      exact this.symm
+
+/-- **Balls: common translation, positive scaling.**  The certified ball verdict (per-facet slack `t`)
+is unchanged when both centres are translated by `τ`, and when centres, both radii and the slack are
+scaled by `k > 0`; so are `is_covered` for `Σ = I` (`ballIsCovered`) and its band versions.  No sign
+condition on the radii. -/
+theorem ball_isCovered_translate_scale (W : Mat) (c1 c2 : Vec) (a1 a2 : ℚ)
+    (hc : c2.length = c1.length) (hW : ∀ w ∈ W, w.length = c1.length) :
+    (∀ t τ : Vec, W.length = t.length → τ.length = c1.length →
+      ballVerdict W (vadd c1 τ) a1 (vadd c2 τ) a2 t = ballVerdict W c1 a1 c2 a2 t) ∧
+    (∀ (slack τ : Vec) (tau : ℚ), τ.length = c1.length →
+      ballIsCoveredTol W (vadd c1 τ) a1 (vadd c2 τ) a2 slack tau = ballIsCoveredTol W c1 a1 c2 a2 slack tau) ∧
+    (∀ (k : ℚ) (t : Vec), 0 < k → W.length = t.length →
+      ballVerdict W (smul k c1) (k * a1) (smul k c2) (k * a2) (smul k t) = ballVerdict W c1 a1 c2 a2 t) ∧
+    (∀ (k : ℚ) (slack : Vec) (tau : ℚ), 0 < k →
+      ballIsCoveredTol W (smul k c1) (k * a1) (smul k c2) (k * a2) (smul k slack) (k * tau) =
+        ballIsCoveredTol W c1 a1 c2 a2 slack tau) := by
+  refine ⟨fun t τ ht hτ => ballVerdict_translate W c1 c2 t τ a1 a2 hc hW ht hτ, ?_,
+    fun k t hk ht => ballVerdict_scale W k hk c1 c2 t a1 a2 hc hW ht, ?_⟩
+  · intro slack τ tau hτ
+    unfold ballIsCoveredTol
+    cases hs : expandSlack W.length slack with
+    | none => rfl
+    | some sv =>
+      simp only [Option.map_some, Option.some.injEq]
+      exact ballVerdict_translate W c1 c2 _ τ a1 a2 hc hW (by simp [expandSlack_length hs]) hτ
+  · intro k slack tau hk
+    unfold ballIsCoveredTol
+    rw [expandSlack_smul]
+    cases hs : expandSlack W.length slack with
+    | none => rfl
+    | some sv =>
+      simp only [Option.map_some, Option.some.injEq]
+      have e : (smul k sv).map (· + k * tau) = smul k (sv.map (· + tau)) := by
+        simp only [smul, List.map_map]
+        apply List.map_congr_left
+        intro x _; simp [mul_add]
+      rw [e]
+      exact ballVerdict_scale W k hk c1 c2 _ a1 a2 hc hW (by simp [expandSlack_length hs])
+
+/-- **Balls: a cone row may be rescaled together with its slack entry, and the facets re-ordered.**
+The ellipsoid slack is per facet: row `n` and slack entry `n` multiplied by the same `D n > 0`, or
+the (row, slack) pairs permuted, give the same verdict. -/
+theorem ball_isCovered_rows (c1 c2 : Vec) (a1 a2 : ℚ) (hc : c2.length = c1.length) :
+    (∀ (W : Mat) (D t : Vec), (∀ e ∈ D, 0 < e) → D.length = W.length →
+      (∀ w ∈ W, w.length = c1.length) → W.length = t.length →
+      ballVerdict (List.zipWith smul D W) c1 a1 c2 a2 (List.zipWith (· * ·) D t) =
+        ballVerdict W c1 a1 c2 a2 t) ∧
+    (∀ ws ws' : List (Vec × ℚ), ws.Perm ws' → (∀ p ∈ ws, p.1.length = c1.length) →
+      ballVerdict (ws.map Prod.fst) c1 a1 c2 a2 (ws.map Prod.snd) =
+        ballVerdict (ws'.map Prod.fst) c1 a1 c2 a2 (ws'.map Prod.snd)) :=
+  ⟨fun W D t hD hlen hW ht => ballVerdict_scaleRows D W c1 c2 t a1 a2 hD hlen hc hW ht,
+   fun _ _ h hW => ballVerdict_perm h c1 c2 a1 a2 hc hW⟩
+
+/-- **General ellipsoids.**  (i) The certificates of a case certify every translate of it: with the
+same proposed witness `u₁, u₂` and multiplier `lam`, `ellVerdict` answers the same after a common
+translation of the centres.  (ii) The semantic predicate itself (any slack `s`, margins `t`) is
+invariant under a common translation of the centres and under scaling centres, radii `alpha`, slack
+and margins by `k > 0` (the factors `L` fixed: `{k·c + L u | ‖u‖ ≤ k·a} = k·{c + L u | ‖u‖ ≤ a}`). -/
+theorem ell_isCovered_translate_scale (W : Mat) (c1 c2 : Vec) (L1 L2 : Mat) (a1 a2 : ℚ) (s t : Vec) :
+    (∀ (u1 u2 lam τ : Vec), c1.length = τ.length → c2.length = τ.length →
+      ellVerdict W (vadd c1 τ) L1 a1 (vadd c2 τ) L2 a2 t u1 u2 lam =
+        ellVerdict W c1 L1 a1 c2 L2 a2 t u1 u2 lam) ∧
+    (∀ τ : Vec, c1.length = τ.length → c2.length = τ.length →
+      (Cov (ell (vadd c1 τ) L1 a1) (ell (vadd c2 τ) L2 a2) W s t ↔
+        Cov (ell c1 L1 a1) (ell c2 L2 a2) W s t)) ∧
+    (∀ k : ℚ, 0 < k →
+      (Cov (ell (smul k c1) L1 (k * a1)) (ell (smul k c2) L2 (k * a2)) W (smul k s) (smul k t) ↔
+        Cov (ell c1 L1 a1) (ell c2 L2 a2) W s t)) :=
+  ⟨fun u1 u2 lam τ h1 h2 => ellVerdict_translate W c1 L1 a1 c2 L2 a2 t u1 u2 lam τ h1 h2,
+   fun τ h1 h2 => cov_ell_translate W c1 c2 s t τ L1 L2 a1 a2 h1 h2,
+   fun k hk => cov_ell_scale W k hk c1 c2 s t L1 L2 a1 a2⟩
+
+/-- non-vacuity, large offset and tiny gap: `[0,1]²` against `[−1, 2⁻²⁰]²` is covered under the
+orthant order (the boxes overlap by `2⁻²⁰`) and `[−1, −2⁻²⁰]²` is not; both verdicts survive the
+translation by `(2²⁰, −2²⁰)` -/
+example :
+    rectIsCovered [[1, 0], [0, 1]] [0, 0] [1, 1] [-1, -1] [1 / 1048576, 1 / 1048576] [0] = some .yes ∧
+    rectIsCovered [[1, 0], [0, 1]] (vadd [0, 0] [1048576, -1048576]) (vadd [1, 1] [1048576, -1048576])
+      (vadd [-1, -1] [1048576, -1048576]) (vadd [1 / 1048576, 1 / 1048576] [1048576, -1048576]) [0] = some .yes ∧
+    rectIsCovered [[1, 0], [0, 1]] [0, 0] [1, 1] [-1, -1] [-1 / 1048576, -1 / 1048576] [0] = some .no ∧
+    rectIsCovered [[1, 0], [0, 1]] (vadd [0, 0] [1048576, -1048576]) (vadd [1, 1] [1048576, -1048576])
+      (vadd [-1, -1] [1048576, -1048576]) (vadd [-1 / 1048576, -1 / 1048576] [1048576, -1048576]) [0] = some .no := by
+  decide +kernel
+
+/-- … balls `B((3,4),2)`, `B(0,3)` (touching: distance 5) translated by `(2²⁰, 2²⁰)`, and scaled by
+`2⁻²⁰` -/
+example :
+    ballVerdict [[1, 0], [0, 1]] (vadd [3, 4] [1048576, 1048576]) 2 (vadd [0, 0] [1048576, 1048576]) 3 [0, 0] = .yes ∧
+    ballVerdict [[1, 0], [0, 1]] (vadd [3, 4] [1048576, 1048576]) 2 (vadd [0, 0] [1048576, 1048576]) (3 - 1 / 1048576) [0, 0] = .no ∧
+    ballVerdict [[1, 0], [0, 1]] (smul (1 / 1048576) [3, 4]) (1 / 1048576 * 2) (smul (1 / 1048576) [0, 0])
+      (1 / 1048576 * 3) (smul (1 / 1048576) [0, 0]) = .yes := by
+  decide +kernel
+
+end Invariance
 
 end VOPy.C10
